@@ -3,7 +3,6 @@ from .common import jobs_for
 LEVEL = 'proof'
 LEVEL_TEXT = 'every face value of arithmeticMean, linearMean, harmonicMean, geometricMean and upwindMean is proved equal to its specification in the two adjacent cell values and cell widths, for a symbolic face on every axis of every grid (the 1-D loops are summarised by generic iteration); between-neighbours, constants, harmonic<=arithmetic, exactness of linearMean on linear fields, donor / boundary / zero-velocity cases of upwindMean, two-cell support, zeros'
 LEVEL_NOTE = 'geometric mean: exp/log uninterpreted with monotonicity and exp(log x)=x instantiated on the applications present; harmonic <= geometric <= arithmetic for the exp/log form is the weighted AM-GM-HM inequality (Mathlib lemma, DESIGN 2.5), not re-proved by SMT; 2-D/3-D geometricMean on exact zeros relies on IEEE log(0)/exp(-inf): bounded stand-in only'
-BOUNDED = [{'what': 'geometricMean 2-D/3-D with exact zeros (IEEE -inf semantics)', 'scope': 'native evaluation, grids <= 4 cells per axis, random non-negative data with zeros, seeds of the run', 'bounded': True}]
 MODULES = ['contracts.means']
 TRUSTED = ['A1', 'A2', 'A5', 'A6', 'UF']
 
